@@ -51,6 +51,9 @@ func Harness_C15_history() {
 	for n := 0; n < N; n++ {
 		start[n] = int64(vr.Int(vr.T("trip", n, ".start"), lo, hi))
 		sfx[n] = "_" + vr.Str(vr.T("trip", n, ".sfx"))
+		if vr.Param("SFXNONE", 0) == 1 {
+			sfx[n] = "" // a trip id that is exactly its six-character prefix
+		}
 	}
 	for a := 0; a < N; a++ {
 		for b := a + 1; b < N; b++ {
